@@ -33,6 +33,9 @@ struct Config {
     /// one): 0 plain; 1 written with a 1 ms deadline, the deadline then removed by an overwrite (SCAN) or PERSIST,
     /// and the clock moved past the old deadline without a sweeper pass; 2 carrying a deadline far in the future
     history: u8,
+    /// 64 further elements y00..y63: with a MATCH that only one or a few elements pass, whole calls examine their budget
+    /// of elements without finding anything and the iteration must still go on (a seeded change ended it there)
+    sparse: bool,
 }
 
 const HISTORIES: [&str; 3] = ["plain", "deadline removed, old deadline passed", "distant deadline"];
@@ -69,14 +72,14 @@ fn configs(thorough: bool) -> Vec<Config> {
                         let want_long = (thorough || subset == 31) && tf.is_none();
                         let want_hist = (thorough || subset == 31) && pattern.is_none();
                         let mut push = |mods: Vec<(usize, usize)>| {
-                            out.push(Config { kind, subset, big, count, pattern, type_filter: tf, mods: mods.clone(), long: false, history: 0 });
+                            out.push(Config { kind, subset, big, count, pattern, type_filter: tf, mods: mods.clone(), long: false, history: 0, sparse: false });
                             if want_hist && mods.len() <= 1 {
                                 for history in 1..HISTORIES.len() as u8 {
-                                    out.push(Config { kind, subset, big, count, pattern, type_filter: tf, mods: mods.clone(), long: false, history });
+                                    out.push(Config { kind, subset, big, count, pattern, type_filter: tf, mods: mods.clone(), long: false, history, sparse: false });
                                 }
                             }
                             if want_long && mods.len() <= 1 {
-                                out.push(Config { kind, subset, big, count, pattern, type_filter: tf, mods, long: true, history: 0 });
+                                out.push(Config { kind, subset, big, count, pattern, type_filter: tf, mods, long: true, history: 0, sparse: false });
                             }
                         };
                         push(vec![]);
@@ -95,6 +98,24 @@ fn configs(thorough: bool) -> Vec<Config> {
                             }
                         }
                     }
+                }
+            }
+        }
+    }
+    for kind in 0..KINDS.len() {
+        for pattern in [Some("a"), Some("c"), Some("e"), Some("[a-e]"), Some("x0?"), None] {
+            for count in [1u32, 2, 3] {
+                if !thorough && count == 3 {
+                    continue;
+                }
+                let mut modlists: Vec<Vec<(usize, usize)>> = vec![vec![]];
+                for g in 0..(if thorough { 6 } else { 2 }) {
+                    for m in [2usize, 4] {
+                        modlists.push(vec![(g, m)]);
+                    }
+                }
+                for mods in modlists {
+                    out.push(Config { kind, subset: 31, big: true, count, pattern, type_filter: None, mods, long: false, history: 0, sparse: true });
                 }
             }
         }
@@ -126,6 +147,11 @@ fn run_config(h: &mut Harness, c: &Config) -> Result<(Vec<String>, Value), Strin
     if c.big {
         for i in 0..12 {
             present.insert(format!("x{:02}", i));
+        }
+    }
+    if c.sparse {
+        for i in 0..64 {
+            present.insert(format!("y{:02}", i));
         }
     }
     let long = c.long;
@@ -334,7 +360,7 @@ fn run_config(h: &mut Harness, c: &Config) -> Result<(Vec<String>, Value), Strin
     }
     problems.sort();
     problems.dedup();
-    let detail = json!({"kind": kind, "initial": throughout.iter().cloned().collect::<Vec<_>>(), "count": c.count, "match": c.pattern, "type": c.type_filter, "long_common_prefix": c.long, "key_history": HISTORIES[c.history as usize],
+    let detail = json!({"kind": kind, "initial": throughout.iter().cloned().collect::<Vec<_>>(), "count": c.count, "match": c.pattern, "type": c.type_filter, "long_common_prefix": c.long, "sparse_match_over_81_elements": c.sparse, "key_history": HISTORIES[c.history as usize],
         "modifications": c.mods.iter().map(|(g, m)| format!("after call {}: {}", g + 1, MODS[*m])).collect::<Vec<_>>(), "trace": trace, "calls": calls});
     Ok((problems, detail))
 }
